@@ -417,12 +417,114 @@ func c14PathCase(t *core.T) {
 		rp, refp = c, refc
 	}
 	t.Nontrivial(fmt.Sprintf("path:seed%d:%s", seedLen, shape))
+	// the last key of the path as a reused parent object, private and neutered
+	if rp != nil && refp != nil && !t.Failed() {
+		c14SiblingCase(t, rp, refp, parentShort, w)
+		if np, err := rp.Neuter(); err == nil && !t.Failed() {
+			pubRef := *refp
+			pubRef.HasPriv = false
+			c14SiblingCase(t, np, &pubRef, false, w)
+		}
+	}
 	// illegal seed lengths
 	for _, l := range []int{0, 1, 15, 65, 128} {
 		if _, err := hdkeychain.NewMaster(make([]byte, l), config.ChainParams); err == nil {
 			t.Violatef("seed-length-accepted", map[string]interface{}{"len": l}, "NewMaster accepted a %d-byte seed", l)
 		}
 	}
+}
+
+
+// c14SiblingCase uses ONE parent object the way the wallet does (nextAddresses, the gap-limit scan, the
+// unlock path): children are derived from it one after another, some are zeroed as soon as they have
+// been used, others are kept; then every kept child, the parent itself and a second derivation of
+// every index must still equal the reference. Derivation must not depend on what happened to sibling
+// objects or on how often the parent was used.
+func c14SiblingCase(t *core.T, rp *hdkeychain.ExtendedKey, refp *refXKey, parentShort bool, w map[string]interface{}) {
+	if parentShort || (refp.HasPriv && refp.Priv[0] == 0) {
+		return // the known-finding class is judged by the step checks
+	}
+	w2 := map[string]interface{}{}
+	for k, v := range w {
+		w2[k] = v
+	}
+	private := rp.IsPrivate()
+	type kept struct {
+		k   *hdkeychain.ExtendedKey
+		ref *refXKey
+		i   uint32
+	}
+	var keep []kept
+	var idx []uint32
+	n := t.R.Range(3, 8)
+	seq := ""
+	for j := 0; j < n; j++ {
+		i := uint32(j)
+		if t.R.Chance(30) {
+			i = c14Index(t.R)
+		}
+		if !private && i >= 0x80000000 {
+			i &= 0x7fffffff
+		}
+		var refc *refXKey
+		var ok bool
+		if private {
+			refc, ok = refCKDPriv(refp, i)
+		} else {
+			refc, ok = refCKDPub(refp, i)
+		}
+		c, err := rp.Child(i)
+		if !ok {
+			continue // invalid child per BIP-32 (probability 2^-127)
+		}
+		if err != nil {
+			t.Violatef("sibling-derivation-error", w2, "Child(%d) of a reused parent fails: %v", i, err)
+			return
+		}
+		w2["sibling_sequence"] = seq + fmt.Sprintf("child(%d)", i)
+		if refc.HasPriv && refc.Priv[0] == 0 {
+			continue
+		}
+		if !c14Compare(t, c, refc, "sibling-mismatch", w2) {
+			return
+		}
+		idx = append(idx, i)
+		if t.R.Chance(50) {
+			c.Zero()
+			seq += fmt.Sprintf("child(%d),zero;", i)
+		} else {
+			keep = append(keep, kept{c, refc, i})
+			seq += fmt.Sprintf("child(%d),keep;", i)
+		}
+	}
+	w2["sibling_sequence"] = seq
+	for _, kp := range keep {
+		w2["recheck_index"] = kp.i
+		if !c14Compare(t, kp.k, kp.ref, "kept-sibling-changed", w2) {
+			return
+		}
+	}
+	delete(w2, "recheck_index")
+	if !c14Compare(t, rp, refp, "parent-changed-by-use", w2) {
+		return
+	}
+	for _, i := range idx {
+		var refc *refXKey
+		if private {
+			refc, _ = refCKDPriv(refp, i)
+		} else {
+			refc, _ = refCKDPub(refp, i)
+		}
+		c, err := rp.Child(i)
+		if err != nil || refc == nil {
+			continue
+		}
+		w2["second_derivation_index"] = i
+		if !c14Compare(t, c, refc, "second-derivation-mismatch", w2) {
+			return
+		}
+	}
+	t.Count("sibling_sequences", 1)
 }
 
 // c14ShortParentCase: targeted construction of parents with 1 (or 2) leading zero bytes.
